@@ -95,8 +95,10 @@ class MrAndersonSimulator(object):
                   
         """
 
-        # Bits are addressed by their position in their register: bring a circuit with several registers to one register each
-        if isinstance(t_qiskit_circ, QuantumCircuit) and (len(t_qiskit_circ.qregs) != 1 or len(t_qiskit_circ.cregs) > 1):
+        # Bits are addressed by their position in their register: if that is not their position in the circuit (several registers,
+        # reversed or registerless bits), bring the circuit to one register each
+        if isinstance(t_qiskit_circ, QuantumCircuit) and not all(
+                bit._index == k for bits in (t_qiskit_circ.qubits, t_qiskit_circ.clbits) for k, bit in enumerate(bits)):
             flat_circ = QuantumCircuit(t_qiskit_circ.num_qubits, t_qiskit_circ.num_clbits, name=t_qiskit_circ.name)
             flat_circ.compose(t_qiskit_circ, qubits=range(t_qiskit_circ.num_qubits), clbits=range(t_qiskit_circ.num_clbits), inplace=True)
             t_qiskit_circ = flat_circ
